@@ -85,6 +85,16 @@ def _prop_class(base):
     return make
 
 
+def _two_names(dfs, ci):
+    import utype
+
+    def make():
+        ns = {"__annotations__": {"a": int}, "a": utype.Field(alias_from=["b"], default=0), "__module__": __name__, "__qualname__": "Two04",
+              "__options__": utype.Options(data_first_search=dfs, case_insensitive=ci)}
+        return type("Two04", (utype.Schema,), ns)
+    return make
+
+
 def _rule(ann, **constraints):
     from utype.parser.rule import Rule
     return Rule.parse_annotation(ann, constraints=constraints or None)
@@ -114,11 +124,15 @@ def _awkward():
         "hidden_settable_property_dataclass": _prop_class("DataClass"),
         "plain_schema": lambda: _plain(False),
         "plain_schema_addition": lambda: _plain(True),
+        # one field given under two of its names: the two raw values are compared (alias conflict) before either is parsed
+        "two_names_schema": _two_names(False, False), "two_names_schema_data_first": _two_names(True, False),
+        "two_names_schema_ci": _two_names(False, True), "two_names_schema_ci_data_first": _two_names(True, True),
     }
 
 
 AWKWARD = _awkward()
-DIRECT_CLASSES = ("discriminated_union", "plain_schema", "plain_schema_addition", "hidden_settable_property_schema", "hidden_settable_property_dataclass")
+DIRECT_CLASSES = ("discriminated_union", "plain_schema", "plain_schema_addition", "hidden_settable_property_schema", "hidden_settable_property_dataclass",
+                  "two_names_schema", "two_names_schema_data_first", "two_names_schema_ci", "two_names_schema_ci_data_first")
 
 
 _HANGS = {}
@@ -296,7 +310,11 @@ def campaign(ctx):
                      {"t": "dict", "v": [["x", 1]]}, {"t": "dict", "v": [["x", "7"], ["n", "2"]]}, {"t": "dict", "v": [["x", -1]]}, {"t": "dict", "v": [["x", "abc"]]},
                      {"t": "dict", "v": [["_obj_self", 1]]}, {"t": "dict", "v": [["_d", 1], ["a", "2"]]}, {"t": "dict", "v": [["_d", {"t": "dict", "v": [["a", "x"]]}]]}, {"t": "dict", "v": [["self", 1], ["cls", 2]]},
                      {"t": "dict", "v": [["kwargs", {"t": "dict", "v": []}], ["args", {"t": "list", "v": []}]]}, {"t": "dict", "v": [["__class__", 1], ["__dict__", {"t": "dict", "v": []}]]},
-                     {"t": "dict", "v": [["a", 1], ["__options__", 3], ["__context__", None]]}, {"t": "dict", "v": [["", 1], ["a b", 2], ["é", 3]]}]
+                     {"t": "dict", "v": [["a", 1], ["__options__", 3], ["__context__", None]]},
+                     # values whose comparison raises (a signalling NaN, an object with a raising __eq__), under two names / two spellings of one field
+                     {"t": "dict", "v": [["a", D("sNaN")], ["b", D("sNaN")]]}, {"t": "dict", "v": [["a", {"t": "evil", "v": "eq"}], ["b", {"t": "evil", "v": "eq"}]]},
+                     {"t": "dict", "v": [["b", 1], ["a", {"t": "evil", "v": "eq"}]]}, {"t": "dict", "v": [["a", D("sNaN")], ["A", D("sNaN")]]}, {"t": "dict", "v": [["A", {"t": "evil", "v": "eq"}], ["a", 2]]},
+                     {"t": "dict", "v": [["a", F("nan")], ["b", F("nan")]]}, {"t": "dict", "v": [["", 1], ["a b", 2], ["é", 3]]}]
     for name in AWKWARD:
         for v in hostile_items:
             if name in DIRECT_CLASSES and not (isinstance(v, dict) and v.get("t") == "dict" and all(isinstance(k, str) for k, _ in v["v"])):
